@@ -93,68 +93,90 @@ theorem vrec_draws_vvisits (c : VCtx α) (one : Bool) (i : Nat) (n : Node α) (p
   (vtrace_draws' c n pc p1 p2 d).symm.trans (vtrace_acq' c one i n d).2
 
 mutual
-theorem vrec_su (c : VCtx α) (hσ : ∀ o j, c.strat o j ≠ []) (one : Bool) (i : Nat) :
-    ∀ (n : Node α) (pc p1 p2 : α) (d : DrawSt α),
+/-- every player node of the tree finds a non-empty strategy vector in the context -/
+def StratsNonempty (c : VCtx α) : Node α → Prop
+  | .term _ => True
+  | .chance _ ks => StratsNonemptyL c ks
+  | .player o j ks => c.strat o j ≠ [] ∧ StratsNonemptyL c ks
+def StratsNonemptyL (c : VCtx α) : List (Node α) → Prop
+  | [] => True
+  | k :: ks => StratsNonempty c k ∧ StratsNonemptyL c ks
+end
+
+mutual
+theorem vrec_su (c : VCtx α) (one : Bool) (i : Nat) :
+    ∀ (n : Node α) (_ : StratsNonempty c n) (pc p1 p2 : α) (d : DrawSt α),
     stratUpdates one i (vrec c n pc p1 p2 d).2.1 = (vvisits c one i n d).1
-  | .term _, pc, p1, p2, d => by simp only [vrec, vvisits, stratUpdates_nil]
-  | .chance j ks, pc, p1, p2, d => by
+  | .term _, _, pc, p1, p2, d => by simp only [vrec, vvisits, stratUpdates_nil]
+  | .chance j ks, hσ, pc, p1, p2, d => by
+    have hks : StratsNonemptyL c ks := by simpa only [StratsNonempty] using hσ
     by_cases hs : c.sampled = true
     · simp only [vrec, vvisits, if_pos hs]
-      exact vrecNth_su c hσ one i ks _ pc p1 p2 _
+      exact vrecNth_su c one i ks hks _ pc p1 p2 _
     · simp only [vrec, vvisits, if_neg hs]
-      exact vrecChance_su c hσ one i _ ks pc p1 p2 d 0
-  | .player o j ks, pc, p1, p2, d => by
+      exact vrecChance_su c one i _ ks hks pc p1 p2 d 0
+  | .player o j ks, hσ, pc, p1, p2, d => by
+    obtain ⟨h0, hks⟩ := (by simpa only [StratsNonempty] using hσ :
+      c.strat o j ≠ [] ∧ StratsNonemptyL c ks)
     simp only [vrec, vvisits, stratUpdates_append, stratUpdates_subEffs,
-      stratUpdates_stratEffs_zero one i o j _ _ (hσ o j), Nat.add_zero]
-    rw [vrecActs_su c hσ one i o j _ (c.strat o j) ks pc p1 p2 d 0 0 0]
-theorem vrecNth_su (c : VCtx α) (hσ : ∀ o j, c.strat o j ≠ []) (one : Bool) (i : Nat) :
-    ∀ (ks : List (Node α)) (k : Nat) (pc p1 p2 : α) (d : DrawSt α),
+      stratUpdates_stratEffs_zero one i o j _ _ h0, Nat.add_zero]
+    rw [vrecActs_su c one i o j _ (c.strat o j) ks hks pc p1 p2 d 0 0 0]
+theorem vrecNth_su (c : VCtx α) (one : Bool) (i : Nat) :
+    ∀ (ks : List (Node α)) (_ : StratsNonemptyL c ks) (k : Nat) (pc p1 p2 : α) (d : DrawSt α),
     stratUpdates one i (vrecNth c ks k pc p1 p2 d).2.1 = (vvisitsNth c one i ks k d).1
-  | [], _, pc, p1, p2, d => by simp only [vrecNth, vvisitsNth, stratUpdates_nil]
-  | k :: _, 0, pc, p1, p2, d => by simp only [vrecNth, vvisitsNth]; exact vrec_su c hσ one i k pc p1 p2 d
-  | _ :: ks, n + 1, pc, p1, p2, d => by
-    simp only [vrecNth, vvisitsNth]; exact vrecNth_su c hσ one i ks n pc p1 p2 d
-theorem vrecChance_su (c : VCtx α) (hσ : ∀ o j, c.strat o j ≠ []) (one : Bool) (i : Nat) :
-    ∀ (ps : List α) (ks : List (Node α)) (pc p1 p2 : α) (d : DrawSt α) (acc : α),
+  | [], _, _, pc, p1, p2, d => by simp only [vrecNth, vvisitsNth, stratUpdates_nil]
+  | k :: _, hσ, 0, pc, p1, p2, d => by
+    simp only [vrecNth, vvisitsNth]
+    exact vrec_su c one i k (by simp only [StratsNonemptyL] at hσ; exact hσ.1) pc p1 p2 d
+  | _ :: ks, hσ, n + 1, pc, p1, p2, d => by
+    simp only [vrecNth, vvisitsNth]
+    exact vrecNth_su c one i ks (by simp only [StratsNonemptyL] at hσ; exact hσ.2) n pc p1 p2 d
+theorem vrecChance_su (c : VCtx α) (one : Bool) (i : Nat) :
+    ∀ (ps : List α) (ks : List (Node α)) (_ : StratsNonemptyL c ks) (pc p1 p2 : α) (d : DrawSt α)
+      (acc : α),
     stratUpdates one i (vrecChance c ps ks pc p1 p2 d acc).2.1 = (vvisitsChance c one i ps ks d).1
-  | p :: ps, k :: ks, pc, p1, p2, d, acc => by
+  | p :: ps, k :: ks, hσ, pc, p1, p2, d, acc => by
+    simp only [StratsNonemptyL] at hσ
     simp only [vrecChance, vvisitsChance, stratUpdates_append]
-    rw [vrec_su c hσ one i k (pc * p) p1 p2 d, vrec_draws_vvisits c one i k (pc * p) p1 p2 d,
-      vrecChance_su c hσ one i ps ks pc p1 p2 _ _]
-  | [], _, pc, p1, p2, d, acc => by simp only [vrecChance, vvisitsChance, stratUpdates_nil]
-  | _ :: _, [], pc, p1, p2, d, acc => by simp only [vrecChance, vvisitsChance, stratUpdates_nil]
-theorem vrecActs_su (c : VCtx α) (hσ : ∀ o j, c.strat o j ≠ []) (one : Bool) (i : Nat)
+    rw [vrec_su c one i k hσ.1 (pc * p) p1 p2 d, vrec_draws_vvisits c one i k (pc * p) p1 p2 d,
+      vrecChance_su c one i ps ks hσ.2 pc p1 p2 _ _]
+  | [], _, _, pc, p1, p2, d, acc => by simp only [vrecChance, vvisitsChance, stratUpdates_nil]
+  | _ :: _, [], _, pc, p1, p2, d, acc => by simp only [vrecChance, vvisitsChance, stratUpdates_nil]
+theorem vrecActs_su (c : VCtx α) (one : Bool) (i : Nat)
     (o : Bool) (j : Nat) (mult : α) :
-    ∀ (σ : List α) (ks : List (Node α)) (pc p1 p2 : α) (d : DrawSt α) (a : Nat) (eo ex : α),
+    ∀ (σ : List α) (ks : List (Node α)) (_ : StratsNonemptyL c ks) (pc p1 p2 : α) (d : DrawSt α)
+      (a : Nat) (eo ex : α),
     stratUpdates one i (vrecActs c o j mult σ ks pc p1 p2 d a eo ex).2.2.1
       = (vvisitsActs c one i σ ks d).1
-  | s :: σ, k :: ks, pc, p1, p2, d, a, eo, ex => by
+  | s :: σ, k :: ks, hσ, pc, p1, p2, d, a, eo, ex => by
+    simp only [StratsNonemptyL] at hσ
     cases o with
     | true =>
       simp only [vrecActs, vvisitsActs, if_true, stratUpdates_append, stratUpdates_cons,
         slot_regret_ne, Bool.and_false, Bool.false_and, Bool.false_eq_true, if_false, Nat.zero_add]
-      rw [vrec_su c hσ one i k pc (p1 * s) p2 d, vrec_draws_vvisits c one i k pc (p1 * s) p2 d,
-        vrecActs_su c hσ one i true j mult σ ks pc p1 p2 _ _ _ _]
+      rw [vrec_su c one i k hσ.1 pc (p1 * s) p2 d, vrec_draws_vvisits c one i k pc (p1 * s) p2 d,
+        vrecActs_su c one i true j mult σ ks hσ.2 pc p1 p2 _ _ _ _]
     | false =>
       simp only [vrecActs, vvisitsActs, Bool.false_eq_true, if_false, stratUpdates_append,
         stratUpdates_cons, slot_regret_ne, Bool.and_false, Bool.false_and, Nat.zero_add]
-      rw [vrec_su c hσ one i k pc p1 (p2 * s) d, vrec_draws_vvisits c one i k pc p1 (p2 * s) d,
-        vrecActs_su c hσ one i false j mult σ ks pc p1 p2 _ _ _ _]
-  | [], _, pc, p1, p2, d, a, eo, ex => by simp only [vrecActs, vvisitsActs, stratUpdates_nil]
-  | _ :: _, [], pc, p1, p2, d, a, eo, ex => by simp only [vrecActs, vvisitsActs, stratUpdates_nil]
+      rw [vrec_su c one i k hσ.1 pc p1 (p2 * s) d, vrec_draws_vvisits c one i k pc p1 (p2 * s) d,
+        vrecActs_su c one i false j mult σ ks hσ.2 pc p1 p2 _ _ _ _]
+  | [], _, _, pc, p1, p2, d, a, eo, ex => by simp only [vrecActs, vvisitsActs, stratUpdates_nil]
+  | _ :: _, [], _, pc, p1, p2, d, a, eo, ex => by simp only [vrecActs, vvisitsActs, stratUpdates_nil]
 end
 
 /-- the plain traversal updates the average strategy of an infoset once per visited node of it
-(every strategy vector has at least one entry: an infoset has at least one action) -/
-theorem vrec_stratUpdates (c : VCtx α) (hσ : ∀ o j, c.strat o j ≠ []) (one : Bool) (i : Nat)
-    (n : Node α) (pc p1 p2 : α) (d : DrawSt α) :
+(every player node of the tree finds a non-empty strategy vector: an infoset has at least one
+action) -/
+theorem vrec_stratUpdates (c : VCtx α) (n : Node α) (hσ : StratsNonempty c n) (one : Bool) (i : Nat)
+    (pc p1 p2 : α) (d : DrawSt α) :
     stratUpdates one i (vrec c n pc p1 p2 d).2.1 = (vvisits c one i n d).1 :=
-  vrec_su c hσ one i n pc p1 p2 d
+  vrec_su c one i n hσ pc p1 p2 d
 
 /-- **however the frontier splits the tree**, the tasks and the closing recursion of one
 multi-threaded iteration together call `update_cum_strat` on each infoset — take its mutex — exactly
 as often as the plain traversal's trace acquires it -/
-theorem vanilla_multi_locks_eq_visits (g : Game α) (c : VCtx α) (hσ : ∀ o j, c.strat o j ≠ [])
+theorem vanilla_multi_locks_eq_visits (g : Game α) (c : VCtx α) (hσ : StratsNonempty c g.root)
     (target : Nat) (log : List (DrawRec α)) (one : Bool) (i : Nat) :
     stratUpdates one i (vanillaMultiEffects g c target log).1
       = acqCount (.player one i) (vtrace c g.root { log := log }).1 := by
@@ -164,7 +186,7 @@ theorem vanilla_multi_locks_eq_visits (g : Game α) (c : VCtx α) (hσ : ∀ o j
       = Van.effsOf (Van.pvI c [] (Van.rootItem g)).2 := by
     have := congrArg (fun x => x.2.1) hv
     simpa [Van.rootItem] using this
-  rw [stratUpdates_perm one i hp, ← he, vrec_stratUpdates c hσ, vtrace_acqCount]
+  rw [stratUpdates_perm one i hp, ← he, vrec_stratUpdates c g.root hσ, vtrace_acqCount]
 
 end
 
@@ -177,6 +199,12 @@ example : stratUpdates true 0
       (.chance 0 [.player true 0 [.term 1, .term 0],
                   .player true 0 [.term 0, .player false 0 [.term 2, .term 3]]]) 1 1 1 {}).2.1 = 2 := by
   decide +kernel
+
+/-- the hypothesis of `vrec_stratUpdates` holds for that context and tree -/
+example : StratsNonempty (α := ℚ) ⟨[[1/2, 1/2]], false, fun _ _ => [1/2, 1/2], fun _ _ _ _ => 0, 0⟩
+    (.chance 0 [.player true 0 [.term 1, .term 0],
+                .player true 0 [.term 0, .player false 0 [.term 2, .term 3]]]) := by
+  simp [StratsNonempty, StratsNonemptyL]
 
 example : stratUpdates false 0
     (vrec (α := ℚ) ⟨[[1/2, 1/2]], false, fun _ _ => [1/2, 1/2], fun _ _ _ _ => 0, 0⟩
